@@ -5,6 +5,7 @@ mod c16;
 mod c01;
 mod c02;
 mod c03;
+mod c04;
 mod c05;
 mod c06;
 mod c07;
@@ -47,6 +48,13 @@ fn main() {
         "c12" => c12::run(&cases, &out, &tier, seed),
         "c13" => c11::run(&cases, &out, &tier, seed, "c13"),
         "c02" => c02::run(&cases, &out, &tier, seed),
+        "c04" => c04::supervise(&cases, &out, &tier, seed),
+        "c04w" => {
+            let resume = arg(&args, "--resume", "/nonexistent");
+            let only = arg(&args, "--only", "");
+            let only = only.split_once(':').map(|(g, v)| (g.parse().unwrap(), v.parse().unwrap()));
+            c04::worker(&cases, &out, &tier, seed, &resume, only)
+        }
         "c05" => c05::run(&cases, &out, &tier, seed),
         "dbg07" => c07::dbg(seed),
         "c07" => c07::run(&cases, &out, &tier, seed),
